@@ -216,9 +216,12 @@ side_by_side_tiff_start(struct Storage* self_) noexcept
                 .is_ref = 1,
             };
             CHECK(self->tiff);
-            state = self->tiff->set(self->tiff, &props);
+            // This device plays the HAL's role for the inner writer: the
+            // writer's state has to follow what its methods return, or its
+            // stop() will not finalize and close the file.
+            state = self->tiff->state = self->tiff->set(self->tiff, &props);
             CHECK(state == DeviceState_Armed);
-            state = self->tiff->start(self->tiff);
+            state = self->tiff->state = self->tiff->start(self->tiff);
             CHECK(state == DeviceState_Running);
         }
 
@@ -240,7 +243,8 @@ side_by_side_tiff_stop(struct Storage* self_) noexcept
         struct SideBySideTiff* self =
           containerof(self_, struct SideBySideTiff, storage);
         CHECK(self->tiff);
-        CHECK(self->tiff->stop(self->tiff) == DeviceState_Armed);
+        CHECK((self->tiff->state = self->tiff->stop(self->tiff)) ==
+              DeviceState_Armed);
     } catch (const std::exception& e) {
         LOGE("Exception: %s\n", e.what());
         return DeviceState_AwaitingConfiguration;
@@ -285,8 +289,8 @@ side_by_side_tiff_append(struct Storage* self_,
         struct SideBySideTiff* self =
           containerof(self_, struct SideBySideTiff, storage);
         CHECK(self->tiff);
-        CHECK(self->tiff->append(self->tiff, frame, nbytes) ==
-              DeviceState_Running);
+        CHECK((self->tiff->state = self->tiff->append(
+                 self->tiff, frame, nbytes)) == DeviceState_Running);
     } catch (const std::exception& e) {
         LOGE("Exception: %s\n", e.what());
         return side_by_side_tiff_stop(self_);
